@@ -447,7 +447,11 @@ func (c *Ctx) Assert(cond *smt.Term, label, class, where string) {
 	} else if mv, ok := c.evalModel(cond); ok && mv == 0 {
 		v, m = smt.Sat, c.model
 	} else {
-		v, m = c.check(smt.Not(cond), true)
+		c.sync()
+		v, m = c.S.CheckX(smt.Not(cond), true, true)
+		if v == smt.Unknown {
+			c.res.Unknowns++
+		}
 	}
 	switch v {
 	case smt.Sat:
